@@ -64,7 +64,7 @@ def k1(ctx, kr):
 @replay_factory('cli_check')
 def _replay_cli_check(kinds):
     def rp(ctx):
-        files = {('f%d.st' % i): ({'good': GOOD, 'bad_sem': BAD_SEM}[k] % i) for i, k in enumerate(kinds)}
+        files = {('f%d.st' % i): ({'good': GOOD, 'bad_sem': BAD_SEM, 'bad_syntax': BAD}[k] % i) for i, k in enumerate(kinds)}
         rc, out, err_ = ctx.ironplcc(['check'], files)
         expect_ok = all(k == 'good' for k in kinds)
         coded = bool(re.search(r'error\[P\d{4}\]', err_ + out))
@@ -489,8 +489,8 @@ def _k6_run(ctx, kr, role_prefix):
     P = ctx.program(CR)
     key = P.find_fn('ironplcc', 'cli::create_project')
     # a small file system: two files and a directory with two source files and a text file
-    FS = {'one.st': 'file', 'two.st': 'file', 'dir': 'dir', 'dir/a.st': 'file', 'dir/b.iec': 'file'}
-    ARGS = ['one.st', 'dir', 'two.st']
+    FS = {'one.st': 'file', 'two.st': 'file', 'One.st': 'file', 'dir': 'dir', 'dir/a.st': 'file', 'dir/b.iec': 'file', 'dir/A.st': 'file'}       # names that differ only in letter case are different files
+    ARGS = ['one.st', 'dir', 'two.st', 'One.st']
     st = {}
     def pth(M, v):
         while isinstance(v, Ref): v = M.deref(v)
@@ -526,7 +526,7 @@ def _k6_run(ctx, kr, role_prefix):
              r'^<std::io::Error as std::string::ToString>::to_string$': lambda M, fr, c, a: Str('io error'), r'^std::path::Path::display$': lambda M, fr, c, a: Str('path')}
     M = Machine(P, stubs=stubs, max_steps=20_000_000)
     import itertools
-    ORDERS = [o for n in (1, 2, 3) for o in itertools.permutations(range(3), n)]
+    ORDERS = [o for n in (1, 2, 3) for o in itertools.permutations(range(len(ARGS)), n)]
     def entry(M):
         v = M.fresh_bv('arguments', 8); M.declare_domain(v, list(range(len(ORDERS)))); oi = len(ORDERS) - 1
         for k in range(len(ORDERS) - 1):
@@ -558,7 +558,7 @@ def _k6_run(ctx, kr, role_prefix):
     kr.queries += M.stats['smt']
     kr.functions = fn_paths(P, M.encoded); kr.models = sorted(M.models_used)
     kr.stubs = ['a fixed small file system (two files, one directory with two sources) behind std::fs::{canonicalize, metadata, read_dir}, Path::is_*; Source::try_from_file_id reads from it; handle_diagnostics ignored']
-    kr.bounds = 'every sequence of 1..3 distinct arguments out of {one.st, dir, two.st} (symbolic choice): cli::create_project with the real enumerate_files and the real FileBackedProject: the project holds exactly the files the arguments name'
+    kr.bounds = 'every sequence of 1..3 distinct arguments out of {one.st, dir, two.st, One.st} (symbolic choice; dir holds a.st, A.st, b.iec): cli::create_project with the real enumerate_files and the real FileBackedProject: the project holds exactly the files the arguments name'
     kr.exhaustive = True
     kr.outside = ['unreadable paths (K3); what a directory expands to (K4)']
 
@@ -572,13 +572,45 @@ def _replay_cli_arguments(args):
         d = tempfile.mkdtemp(dir=ctx.tmp); good = 'PROGRAM unit%d\nVAR\n  x : INT;\nEND_VAR\n  x := 1;\nEND_PROGRAM\n'
         os.mkdir(os.path.join(d, 'dir'))
         names = {}
-        for i, f in enumerate(['one.st', 'two.st', 'dir/a.st', 'dir/b.iec']): open(os.path.join(d, f), 'w').write(good % i); names[f] = 'unit%d' % i
+        for i, f in enumerate(['one.st', 'two.st', 'dir/a.st', 'dir/b.iec', 'One.st', 'dir/A.st']): open(os.path.join(d, f), 'w').write(good % i); names[f] = 'unit%d' % i
         # `echo` renders every file of the project: the program names in its output are the files that were loaded
         want = set()
-        for a in args: want |= ({names[a]} if a != 'dir' else {names['dir/a.st'], names['dir/b.iec']})
+        for a in args: want |= ({names[a]} if a != 'dir' else {names['dir/a.st'], names['dir/b.iec'], names['dir/A.st']})
         r = subprocess.run([ctx.ironplcc_path(), 'echo'] + [os.path.join(d, a) for a in args], capture_output=True, text=True)
         got = set(re.findall(r'PROGRAM (unit\d)', r.stdout))
         return got != want, {'arguments': args, 'programs_rendered': sorted(got), 'programs_in_the_named_files': sorted(want), 'exit': r.returncode}
     return rp
 
-KERNELS = [k1, k2, k2b, k3, k4, k5, k6]
+# ---------------------------------------------------------------------------------------------- K7 a failing analysis hands over at least one diagnostic
+@kernel('K7 project.failure_carries_a_diagnostic')
+def k7(ctx, kr):
+    """K1 takes `semantic() -> Err(1..2 diagnostics)` as the contract of the project; this is that contract on the real FileBackedProject::semantic:
+    for 0..2 files with symbolic parse and analysis outcomes, an Err always carries at least one diagnostic (otherwise `check` fails without a coded message)"""
+    from . import C03 as K03
+    for N in (0, 1, 2):
+        events = []
+        M, entry, st = K03.project_machine(ctx, N, events)
+        def on_path(M, pr, N=N):
+            kr.paths += 1
+            if pr.inconclusive: kr.inconc(pr.inconclusive); return
+            kr.nontrivial += 1
+            s = z3.Solver(); s.add(*pr.pc); s.check(); m = s.model(); kr.queries += 1
+            pok = [z3.is_true(m.eval(b, True)) for b in st['parse_ok']]; aok = z3.is_true(m.eval(st['an_ok'], True))
+            wit = {'files': N, 'parse_ok': pok, 'analyze_ok': aok}
+            rep = ('check_empty_set', ()) if N == 0 else ('cli_check', (['good' if p else 'bad_syntax' for p in pok],))
+            if pr.panic: _add(kr, 'C13/K7/panic/%d-files' % N, 'FileBackedProject::semantic panics: ' + pr.panic.msg[:60], wit, rep); return
+            if pr.result.disc == 1 and len(pr.result.f[0].items) == 0:
+                _add(kr, 'C13/K7/failure-without-diagnostic/%d-files' % N, 'semantic() of a project of %d files (parse outcomes %s) answers Err with an empty list: `check` exits non-zero and prints no coded diagnostic' % (N, pok), wit, rep)
+            elif N == 0 and pr.result.disc == 0:
+                _add(kr, 'C13/K7/empty-set-accepted', 'semantic() of a project without files answers Ok', wit, rep)
+            elif len(kr.validate) < 2 and N == 0: kr.validate.append(rep)
+            if len(kr.samples) < 4: kr.samples.append({'outcomes': wit, 'result': 'Err(%d diagnostics)' % len(pr.result.f[0].items) if pr.result.disc == 1 else 'Ok'})
+        M.explore(entry, on_path)
+        kr.queries += M.stats['smt']; kr._enc = getattr(kr, '_enc', set()) | set(M.encoded)
+    P = ctx.program()
+    kr.functions = fn_paths(P, kr._enc)
+    kr.stubs = ['ironplc_parser::parse_program -> arbitrary Ok(Library_i) / Err(diagnostic_i)', 'ironplc_analyzer::stages::analyze -> Err(P0030) on an empty set (its documented answer; C03-K4 checks it on the real analyze), otherwise arbitrary Ok / Err([sem])']
+    kr.bounds = 'projects of 0..2 files, every combination of parse and analysis outcomes, every iteration order'
+    kr.exhaustive = True
+
+KERNELS = [k1, k2, k2b, k3, k4, k5, k6, k7]
